@@ -95,7 +95,7 @@ def isfin(v):
     return not core._is_special(v) if core.is_sym(v) or isinstance(v, float) else True
 
 
-def h_adjust(ctx, n, k, n_params, special_rows=(0,), reuse=False):
+def h_adjust(ctx, n, k, n_params, special_rows=(0,), reuse=False, requested=False):
     ctx.assume_nonzero_divisors = True
     S = [mk_vals(ctx, 's%d_' % j, n, special_rows if j == 0 else ()) for j in range(k)]
     TH = [mk_vals(ctx, 'th%d_' % p, n, special_rows if p == 0 else ()) for p in range(n_params)]
@@ -118,16 +118,26 @@ def h_adjust(ctx, n, k, n_params, special_rows=(0,), reuse=False):
                                 adjustment=adjm)
             StubLR.fits = []
         import warnings
+        req = None
+        if requested:
+            # the caller asks for a subset / another order of the sample's parameters
+            subsets = [list(c) for r in range(1, n_params + 1) for c in itertools.permutations(range(n_params), r)]
+            req = subsets[ctx.choice('requested_parameters', len(subsets))]
         with warnings.catch_warnings():
             warnings.simplefilter('ignore')
-            res = pp.adjust_posterior(sample, model, snames, adjustment=adjm)
+            if req is None:
+                res = pp.adjust_posterior(sample, model, snames, adjustment=adjm)
+            else:
+                res = pp.adjust_posterior(sample, model, snames, parameter_names=[pnames[p] for p in req], adjustment=adjm)
     fits = list(StubLR.fits)
-    ctx.claim('one_regression_per_parameter', len(fits) == n_params)
-    for p, pn in enumerate(pnames):
+    order = list(range(n_params)) if req is None else req
+    ctx.claim('one_regression_per_parameter', len(fits) == len(order))
+    for fit_index, p in enumerate(order):
+        pn = pnames[p]
         rows = [i for i in range(n) if all(isfin(S[j][i]) for j in range(k)) and isfin(TH[p][i])]
-        if p >= len(fits):
+        if fit_index >= len(fits):
             break
-        X, y = fits[p]
+        X, y = fits[fit_index]
         ctx.claim('%s_fit_uses_exactly_the_finite_rows' % pn, X.shape == (len(rows), k) and len(y) == len(rows) and And(
             *[close(X[r, j], S[j][i] - sobs[j]) for r, i in enumerate(rows) for j in range(k)],
             *[close(y[r], TH[p][i]) for r, i in enumerate(rows)]))
@@ -139,7 +149,7 @@ def h_adjust(ctx, n, k, n_params, special_rows=(0,), reuse=False):
         for r, i in enumerate(rows):
             want = TH[p][i] - Sum([(S[j][i] - sobs[j]) * ref.coef_[j] for j in range(k)])
             ctx.claim_poly('%s_row%d_is_theta_minus_slope_times_summary_difference' % (pn, i), adj[r], want)
-    ctx.claim('result_is_a_sample_with_the_parameters', res.parameter_names == pnames)
+    ctx.claim('result_is_a_sample_with_the_parameters', res.parameter_names == [pnames[p] for p in order])
 
 
 def h_adjust_fixed_point(ctx, n, k):
@@ -228,6 +238,9 @@ HARNESSES = [
     H('adjust_n3_k1_p1', h_adjust, dict(n=3, k=1, n_params=1, special_rows=()), bounds='3 rows, 1 summary, 1 parameter, all finite'),
     H('adjust_n4_k1_p2_nonfinite', h_adjust, dict(n=4, k=1, n_params=2, special_rows=(0,)),
       bounds='4 rows, 1 summary, 2 parameters; row 0 of the summary and of parameter 0 may be +inf/NaN'),
+    H('adjust_n4_k1_p2_requested_subset_nonfinite', h_adjust, dict(n=4, k=1, n_params=2, special_rows=(0,), requested=True),
+      bounds='4 rows, 1 summary, 2 parameters; parameter_names= any non-empty subset in any order; row 0 of parameter 0 may be '
+             '+inf/NaN'),
     H('adjust_n3_k2_p1', h_adjust, dict(n=3, k=2, n_params=1, special_rows=()), bounds='3 rows, 2 summaries, 1 parameter'),
     H('adjust_n4_k2_p1', h_adjust, dict(n=4, k=2, n_params=1, special_rows=()), bounds='4 rows, 2 summaries, 1 parameter', tiers=('thorough',),
       path_timeout=900),
